@@ -66,13 +66,15 @@ static int build_block(int last, size_t target, int litMode, int litFmt, int sty
 /* returns 1 and fills frame/frameSize; content is defined later by the reference decoder */
 static int build_frame(const char* family, unsigned seed, finfo* fi) {
     static unsigned char body[1]; size_t pos = 0, hdrMax = 18, bodyStart; int nb, b; unsigned wexp, wmant; size_t window; int singleSeg = 0, checksum, fcsBytes; size_t total = 0; size_t sizes[400]; int types[400];
-    int isRle = !strcmp(family, "rletab"), isLong = !strcmp(family, "longlen"), isRep = !strcmp(family, "repeat"), isBig = !strcmp(family, "bigwin"), isHdr = !strcmp(family, "headers"), isSplit = !strcmp(family, "splitlit");
+    int isTail = !strcmp(family, "rawtail");
+    int isRle = !strcmp(family, "rletab") || isTail, isLong = !strcmp(family, "longlen"), isRep = !strcmp(family, "repeat"), isBig = !strcmp(family, "bigwin"), isHdr = !strcmp(family, "headers"), isSplit = !strcmp(family, "splitlit");
     (void)body;
     memset(&F, 0, sizeof(F)); F.x = seed * 2654435761u + 99; F.rep[0] = 1; F.rep[1] = 4; F.rep[2] = 8; F.litBase = (seed * 37u) & 127;
     wexp = isBig ? 15 + fa_pick(&F, 3) : (isLong || isSplit) ? 7 + fa_pick(&F, 4) : fa_pick(&F, 9); wmant = fa_pick(&F, 3) ? 0 : fa_pick(&F, 8);
     window = ((size_t)1 << (10 + wexp)); window += (window >> 3) * wmant;
-    checksum = fa_pick(&F, 3) == 0;
-    nb = isHdr ? 1 + (int)fa_pick(&F, 2) : isBig ? 0 : 1 + (int)fa_pick(&F, 6);
+    checksum = isTail ? 0 : fa_pick(&F, 3) == 0;
+    if (isTail) { wexp = 5 + fa_pick(&F, 3); wmant = 0; window = (size_t)1 << (10 + wexp); }
+    nb = isTail ? 1 : isHdr ? 1 + (int)fa_pick(&F, 2) : isBig ? 0 : 1 + (int)fa_pick(&F, 6);
     F.windowSize = window; F.blockMax = window < 131072 ? window : 131072;
     /* plan block types and sizes */
     if (isBig) { size_t need = ((size_t)1 << 24) + ((size_t)1 << 20) * (1 + fa_pick(&F, 6)); nb = 0;
@@ -100,7 +102,13 @@ static int build_frame(const char* family, unsigned seed, finfo* fi) {
                 cLL = llB[fa_pick(&F, 20)]; cML = mlB[fa_pick(&F, 20)]; cOff = 2 + fa_pick(&F, top > 2 ? top - 1 : 1); if (cOff > top) cOff = top;
                 litMode = fa_pick(&F, 3) ? FA_LRAW : FA_LRLE; maxSeq = 1 + fa_pick(&F, 70);
                 /* the block is exactly n sequences + 0..3 trailing literals */
-                { size_t per = (size_t)cLL + cML; size_t n = maxSeq; if (per * n + 3 > F.blockMax) n = (F.blockMax - 3) / per; if (n == 0) { cLL = 17; cML = 4; per = 21; n = (F.blockMax - 3) / per; if (n == 0) return 0; if (n > maxSeq) n = maxSeq; } maxSeq = n; s = per * n + fa_pick(&F, 4); } }
+                if (isTail) {     /* the boundary between literals referenced in place and literals copied to the context: raw literals followed by a
+                                     sequences section of 26..34 bytes, last literal run of 16..48 bytes reaching 0..3 bytes before the end of the literals */
+                    static const unsigned llT[] = { 15, 16, 17, 18, 31, 32, 33, 34, 35, 36, 47, 48, 49, 63, 64, 65, 66, 97, 98, 129 };      /* around the 16 / 32-byte strides of the literal copy */
+                    unsigned bits, target; modes[0] = modes[1] = modes[2] = FA_RLE; cLL = llT[fa_pick(&F, 20)]; cML = 3 + fa_pick(&F, 6); cOff = 2 + fa_pick(&F, 3); litMode = FA_LRAW; litFmt = 1 + (int)fa_pick(&F, 2); nbFmt = 0;
+                    bits = LL_bits[fa_llcode(cLL)] + ML_bits[fa_mlcode(cML)] + cOff; target = 27 + fa_pick(&F, 7);
+                    maxSeq = ((target - 5) * 8 - 1) / bits; if (maxSeq < 1) maxSeq = 1; if (maxSeq > 120) maxSeq = 120; }
+                { size_t per = (size_t)cLL + cML; size_t n = maxSeq; if (per * n + 3 > F.blockMax) n = (F.blockMax - 3) / per; if (n == 0) { cLL = 17; cML = 4; per = 21; n = (F.blockMax - 3) / per; if (n == 0) return 0; if (n > maxSeq) n = maxSeq; } maxSeq = n; s = per * n + (isTail ? (fa_pick(&F, 2) ? 0 : fa_pick(&F, 3)) : fa_pick(&F, 4)); } }
             if (isLong) { style = 2; maxSeq = 1 + fa_pick(&F, 12); litMode = fa_pick(&F, 2) ? FA_LRAW : FA_LHUF; }
             if (isRep) { if (b > 0) { modes[0] = fa_pick(&F, 2) ? FA_REPEAT : modes[0]; modes[1] = fa_pick(&F, 2) ? FA_REPEAT : modes[1]; modes[2] = fa_pick(&F, 2) ? FA_REPEAT : modes[2]; if (fa_pick(&F, 2)) litMode = FA_LTREELESS; } else litMode = FA_LHUF; style = (int)fa_pick(&F, 2); }
             if (isSplit) { style = 0; maxSeq = 1 + fa_pick(&F, 30); litMode = fa_pick(&F, 2) ? FA_LRAW : FA_LHUF; }
@@ -136,18 +144,50 @@ static int build_comp_frame(unsigned seed, finfo* fi) {
     memset(&F, 0, sizeof(F)); fi->family = "comp"; fi->seed = seed; fi->nblocks = 0; fi->fcsBytes = -1; fi->singleSeg = -1; fi->checksum = -1; fi->wexp = 0; fi->wmant = 0; return 1;
 }
 
+/* frames of the legacy formats (v0.5 - v0.7 are decoded by this build), taken from the repository's own tests/legacy.c */
+#define main legacy_c_main
+#define DISPLAY(...) do { } while (0)
+#include "../../repo/tests/legacy.c"
+#undef main
+static int build_legacy_frame(unsigned seed, finfo* fi) {
+    static size_t starts[16], sizes[16]; static int nfr = -1;
+    if (nfr < 0) { size_t pos; nfr = 0;      /* frames are located by their magic numbers (v0.5 .. v0.8 = 0xFD2FB525 .. 28) */
+        for (pos = 0; pos + 8 < COMPRESSED_SIZE && nfr < 16; pos++) { const unsigned char* q = (const unsigned char*)COMPRESSED + pos;
+            if (q[1] == 0xB5 && q[2] == 0x2F && q[3] == 0xFD && q[0] >= 0x25 && q[0] <= 0x28) { size_t fs = ZSTD_findFrameCompressedSize(q, COMPRESSED_SIZE - pos); if (!ZSTD_isError(fs) && fs > 0) { starts[nfr] = pos; sizes[nfr] = fs; nfr++; pos += fs - 1; } } } }
+    if (nfr == 0) return 0;
+    { int k = (int)(seed % (unsigned)nfr); memcpy(frame, COMPRESSED + starts[k], sizes[k]); frameSize = sizes[k]; }
+    memset(&F, 0, sizeof(F)); fi->family = "legacy"; fi->seed = seed; fi->nblocks = 0; fi->fcsBytes = -1; fi->singleSeg = -1; fi->checksum = -1; fi->wexp = 0; fi->wmant = 0; return 1;
+}
+/* a few bytes of RLE blocks regenerating far more than the window: what a static streaming decoder must refuse or contain */
+static int build_rlebig_frame(unsigned seed, finfo* fi) {
+    unsigned x = seed * 2654435761u + 11; unsigned wexp, wmant; size_t window, total, pos; unsigned char hdr[32]; size_t hs; int nb = 0;
+#define RY (x = x * 1103515245u + 12345u, (x >> 16) & 0x7fff)
+    wexp = 4 + RY % 7; wmant = RY % 8; window = (size_t)1 << (10 + wexp); window += (window >> 3) * wmant;
+    total = window + 131072 + RY % 400000; pos = 0;
+    hs = fa_frame_header(hdr, total, (RY & 1) ? 0 : 8, 0, wexp, wmant, 0, 0, 0, 0); memcpy(frame, hdr, hs); pos = hs;
+    { size_t left = total; size_t bmax = window < 131072 ? window : 131072; while (left > 0) { size_t s2 = left > bmax ? bmax : left; if (RY % 4 == 0 && s2 > 1) s2 = 1 + RY % s2; fa_block_header(frame + pos, left == s2, 1, (unsigned)s2); frame[pos + 3] = (unsigned char)RY; pos += 4; left -= s2; nb++; if (pos + 8 > MAXF) return 0; } }
+    frameSize = pos; memset(&F, 0, sizeof(F)); F.fRleBlk = (unsigned)nb; fi->family = "rlebig"; fi->seed = seed; fi->nblocks = nb; fi->fcsBytes = 0; fi->singleSeg = 0; fi->checksum = 0; fi->wexp = wexp; fi->wmant = wmant; return 1;
+}
+
 /* ------------------------------------------------------------------ decode paths */
 static const char* g_badPath; static char g_badErr[96];
-#define NPATH 12
-static const char* pathNames[NPATH] = { "oneshot-exact", "oneshot-roomy", "stream-whole", "stream-1byte", "stream-segs", "stream-smallout", "stable-out", "bufferless", "inplace", "dctx-reused", "stream-hint", "oneshot-ddictless" };
+#define NPATH 13
+static const char* pathNames[NPATH] = { "oneshot-exact", "oneshot-roomy", "stream-whole", "stream-1byte", "stream-segs", "stream-smallout", "stable-out", "bufferless", "inplace", "dctx-reused", "stream-hint", "oneshot-ddictless", "static-dstream" };
+static int g_staticExact = 1;       /* 1: the static DStream is sized for the frame's own window (valid frames); 0: for some other window (damaged frames) */
 static ZSTD_DCtx* g_reused;
 
 /* runs path k on src[0..n) with capacity cap into dst; returns size or error; *calls = number of streaming calls; *stall = 1 if a streaming loop stopped making progress without error */
 static size_t run_path(int k, const unsigned char* src, size_t n, unsigned char* dst, size_t cap, unsigned seed, int* stall, int* overcap) {
-    ZSTD_DCtx* d = (k == 9) ? g_reused : ZSTD_createDCtx(); size_t r = 0; *stall = 0; *overcap = 0;
+    ZSTD_DCtx* d; size_t r = 0; gbuf gws; int haveWs = 0; *stall = 0; *overcap = 0;
+    if (k == 12) {      /* a static streaming decoder whose workspace ends at an inaccessible page */
+        ZSTD_frameHeader fh; size_t w = 1 << 17, ws; if (ZSTD_getFrameHeader(&fh, src, n) == 0 && fh.windowSize >= 1024 && fh.windowSize <= ((size_t)1 << 27)) w = (size_t)fh.windowSize;
+        if (!g_staticExact) { unsigned m = seed % 5; w = m == 0 ? w : m == 1 ? (w * 8) / (9 + seed % 7) : m == 2 ? (size_t)1 << 17 : m == 3 ? 1024 : w / 2; if (w < 1024) w = 1024; }
+        ws = ZSTD_estimateDStreamSize(w); ws = (ws + 7) & ~(size_t)7; gws = galloc(ws); haveWs = 1; d = ZSTD_initStaticDStream(gws.p, ws);
+        if (!d) { gfree(&gws); return (size_t)-ZSTD_error_memory_allocation; } }
+    else d = (k == 9) ? g_reused : ZSTD_createDCtx();
     ZSTD_DCtx_reset(d, ZSTD_reset_session_only); ZSTD_DCtx_setParameter(d, ZSTD_d_windowLogMax, 30);
     if (k == 0 || k == 1 || k == 9 || k == 11) r = ZSTD_decompressDCtx(d, dst, cap, src, n);
-    else if (k >= 2 && k <= 6 || k == 10) { ZSTD_inBuffer in; ZSTD_outBuffer ob; unsigned x = seed * 747796405u + 1; size_t fed = 0; int guard = 0; int idle = 0; size_t hint = 1;
+    else if ((k >= 2 && k <= 6) || k == 10 || k == 12) { ZSTD_inBuffer in; ZSTD_outBuffer ob; unsigned x = seed * 747796405u + 1; size_t fed = 0; int guard = 0; int idle = 0; size_t hint = 1;
         if (k == 6) ZSTD_DCtx_setParameter(d, ZSTD_d_stableOutBuffer, 1);
         in.src = src; in.size = 0; in.pos = 0; ob.dst = dst; ob.size = (k == 6) ? cap : 0; ob.pos = 0; r = 1;
         while (++guard < 80000000) { size_t seg, oc, before;
@@ -163,9 +203,14 @@ static size_t run_path(int k, const unsigned char* src, size_t n, unsigned char*
             hint = r ? r : 1;
             if (r == 0 && in.pos == n) break;
             if (r == 0 && in.pos < n) { /* next frame follows */ }
-            if (in.pos + ob.pos == before) { if (in.size == n && (ob.size == cap || k == 6)) { if (++idle > 2) { *stall = 1; break; } } } else idle = 0;
+            if (in.pos + ob.pos == before) {
+                if (in.pos < in.size && ob.pos < ob.size) { if (++idle > 20) { *stall = 1; break; } }       /* input and room available, no progress, no error */
+                else if (in.size == n && in.pos == in.size && ob.pos < ob.size) break;                          /* everything consumed, room available: the decoder waits for more (truncated input) */
+                else if (in.size == n && ob.pos == cap) break;                                                  /* no room left at all */
+            } else idle = 0;
         }
         if (!ZSTD_isError(r)) { if (*stall || r != 0) r = (size_t)-ZSTD_error_srcSize_wrong; else r = ob.pos; } }
+    if (k == 12) { gfree(&gws); return r; }
     else if (k == 7) {      /* buffer-less: ZSTD_decompressBegin / nextSrcSizeToDecompress / decompressContinue; output must be contiguous */
         size_t ip = 0, op = 0; ZSTD_decompressBegin(d);
         for (;;) { size_t want = ZSTD_nextSrcSizeToDecompress(d); size_t w;
@@ -178,7 +223,7 @@ static size_t run_path(int k, const unsigned char* src, size_t n, unsigned char*
         if (ZSTD_isError(margin) || cs == ZSTD_CONTENTSIZE_ERROR) r = (size_t)-ZSTD_error_GENERIC;
         else { size_t want = (cs == ZSTD_CONTENTSIZE_UNKNOWN) ? contentSize : (size_t)cs; size_t total = want + margin; unsigned char* b = malloc(total + 1); memcpy(b + total - n, src, n);
             r = ZSTD_decompressDCtx(d, b, total, b + total - n, n); if (!ZSTD_isError(r) && r <= cap) memcpy(dst, b, r); free(b); } }
-    if (k != 9) ZSTD_freeDCtx(d);
+    (void)haveWs; if (k != 9) ZSTD_freeDCtx(d);
     return r;
 }
 
@@ -193,6 +238,8 @@ static void do_frame(const finfo* fi, int idx) {
     for (k = 0; k < NPATH; k++) { size_t cap = (k == 0) ? contentSize : contentSize + 1 + (fi->seed % 300); size_t r; int stall, over;
         if (contentSize > ((size_t)8 << 20) && (k == 3 || k == 5)) continue;        /* (byte-wise feeding of very large frames: skipped) */
         if (k == 3 && frameSize > 300000) continue;
+        if (k == 12 && contentSize > ((size_t)8 << 20)) continue;
+        g_staticExact = 1;
         r = run_path(k, frame, frameSize, out, cap, fi->seed + (unsigned)k, &stall, &over); npaths++;
         if (ZSTD_isError(r) || r != contentSize || memcmp(out, content, contentSize) || over) { if (!bad) { g_badPath = pathNames[k]; snprintf(g_badErr, sizeof(g_badErr), "%s", ZSTD_isError(r) ? ZSTD_getErrorName(r) : over ? "pos beyond size" : r != contentSize ? "wrong size" : "wrong bytes"); } bad++; } }
     { unsigned key; for (key = 0; key < 128; key++) if (hk_seen[key]) fprintf(T, "{\"e\":\"dblk\",\"prefetch\":%u,\"loc\":%u,\"nseqBig\":%u,\"litBig\":%u,\"histBig\":%u,\"longOff\":%u}\n", key & 1, (key >> 1) & 3, (key >> 3) & 1, (key >> 4) & 1, (key >> 5) & 1, (key >> 6) & 1); }
@@ -232,14 +279,27 @@ static void do_mutations(const finfo* fi, int idx, int nmut) {
         gs = galloc(n); memcpy(gs.p, frame, n);
         for (k = 0; k < NPATH; k++) { size_t cap; gbuf gd; size_t r; int stall, over;
             if (k == 8 || k == 11) continue; if (k == 3 && n > 20000) continue;
+            if (!strcmp(fi->family, "rlebig") && k != 12 && k != 2 && k != 0) continue;
             cap = (MX % 3 == 0) ? contentSize : (MX % 3 == 1) ? (size_t)(MX % 5000) : contentSize + 70000; if (cap > MAXC) cap = MAXC;
             gd = galloc(cap);
             snprintf(g_op, sizeof(g_op), "MUT %s %u idx=%d m=%d kind=%u path=%s cap=%zu n=%zu", fi->family, fi->seed, idx, m, kind, pathNames[k], cap, n);
             if (getenv("DECDRV_OPLOG")) { fprintf(T, "{\"e\":\"mop\",\"op\":\"%s\"}\n", g_op); fflush(T); }
+            g_staticExact = 0;
             r = run_path(k, gs.p, n, gd.p, cap, x + (unsigned)k, &stall, &over);
             if (over) nOver++; if (stall && !ZSTD_isError(r)) nStall++;
             if (ZSTD_isError(r)) nErr++; else { nOk++; if (r > cap) nOver++; if (kind == 99 && ref != (size_t)-1 && (r != contentSize || memcmp(gd.p, content, contentSize))) nWrongOk++; }
             gfree(&gd); }
+        /* frame inspectors, dictionary loaders and dictionary-using decoders on the same bytes */
+        {   ZSTD_frameHeader fh; size_t a; unsigned long long u; unsigned mv = 0; gbuf gd = galloc(64); ZSTD_DDict* dd; ZSTD_DCtx* d2 = ZSTD_createDCtx();
+            snprintf(g_op, sizeof(g_op), "MUT %s %u idx=%d m=%d kind=%u inspectors n=%zu", fi->family, fi->seed, idx, m, kind, n);
+            a = ZSTD_getFrameHeader(&fh, gs.p, n); (void)a; a = ZSTD_findFrameCompressedSize(gs.p, n); if (!ZSTD_isError(a) && a > n) nOver++;
+            u = ZSTD_getFrameContentSize(gs.p, n); u = ZSTD_decompressBound(gs.p, n); u = ZSTD_findDecompressedSize(gs.p, n); (void)u; a = ZSTD_decompressionMargin(gs.p, n);
+            (void)ZSTD_getDictID_fromFrame(gs.p, n); (void)ZSTD_isFrame(gs.p, n); (void)ZSTD_isSkippableFrame(gs.p, n); a = ZSTD_readSkippableFrame(gd.p, 64, &mv, gs.p, n); if (!ZSTD_isError(a) && a > 64) nOver++;
+            (void)ZSTD_getDictID_fromDict(gs.p, n); if (n >= 1) a = ZSTD_frameHeaderSize(gs.p, n);
+            dd = ZSTD_createDDict(gs.p, n); if (dd) { size_t r2 = ZSTD_decompress_usingDDict(d2, out, 70000, orig, osz, dd); if (!ZSTD_isError(r2) && r2 > 70000) nOver++; ZSTD_freeDDict(dd); }
+            { size_t r2 = ZSTD_decompress_usingDict(d2, out, 70000, orig, osz, gs.p, n); if (!ZSTD_isError(r2) && r2 > 70000) nOver++; }
+            { size_t r2 = ZSTD_DCtx_loadDictionary(d2, gs.p, n); (void)r2; }
+            ZSTD_freeDCtx(d2); gfree(&gd); }
         gfree(&gs);
     }
     fprintf(T, "{\"e\":\"mut\",\"family\":\"%s\",\"seed\":%u,\"idx\":%d,\"nmut\":%d,\"csize\":%zu,\"nErr\":%d,\"nOk\":%d,\"over\":%d,\"stall\":%d,\"wrongOk\":%d}\n", fi->family, fi->seed, idx, nmut, osz, nErr, nOk, nOver, nStall, nWrongOk);
@@ -256,7 +316,7 @@ int main(int argc, char** argv) {
     frame = malloc(MAXF + 4096); content = malloc(MAXC + 64); out = malloc(MAXC + 70000 + 4096); lits = malloc(300000); blk = malloc(500000); g_reused = ZSTD_createDCtx();
     while (fgets(line, sizeof(line), S)) { char cmd[16], fam[24]; unsigned seed; int count, nmut = 0, i;
         if (sscanf(line, "%15s %23s %u %d %d", cmd, fam, &seed, &count, &nmut) < 4) continue;
-        for (i = 0; i < count; i++) { finfo fi; int ok = !strcmp(fam, "comp") ? build_comp_frame(seed + (unsigned)i, &fi) : build_frame(fam, seed + (unsigned)i, &fi);
+        for (i = 0; i < count; i++) { finfo fi; int ok = !strcmp(fam, "comp") ? build_comp_frame(seed + (unsigned)i, &fi) : !strcmp(fam, "legacy") ? build_legacy_frame(seed + (unsigned)i, &fi) : !strcmp(fam, "rlebig") ? build_rlebig_frame(seed + (unsigned)i, &fi) : build_frame(fam, seed + (unsigned)i, &fi);
             if (!ok) { fprintf(T, "{\"e\":\"frame\",\"family\":\"%s\",\"seed\":%u,\"idx\":%d,\"accepted\":false,\"why\":\"not assembled\",\"csize\":0}\n", fam, seed + (unsigned)i, i); continue; }
             if (!strcmp(cmd, "GEN")) do_frame(&fi, i); else if (!strcmp(cmd, "MUT")) do_mutations(&fi, i, nmut);
             else if (!strcmp(cmd, "DUMP")) { char nm[300]; FILE* D; snprintf(nm, sizeof(nm), "%s.%s.%u.zst", argv[2], fam, seed + (unsigned)i); D = fopen(nm, "wb"); if (D) { fwrite(frame, 1, frameSize, D); fclose(D); } } }
